@@ -45,6 +45,8 @@ type Ctx struct {
 	Extra       map[string]interface{}
 	Start       time.Time
 	keys        map[string]int
+	floorsDone  bool
+	Configs     []map[string]interface{}
 }
 
 type floor struct {
@@ -106,6 +108,48 @@ func (c *Ctx) Floor(rule string, min int, why string) {
 	c.floors = append(c.floors, floor{rule, min, why})
 }
 
+// ApplyFloors turns every unmet floor into an undecided obligation (once).
+func (c *Ctx) ApplyFloors() {
+	if c.floorsDone {
+		return
+	}
+	c.floorsDone = true
+	counts := map[string]int{}
+	for _, o := range c.Obl {
+		if o.Status != Observed {
+			counts[o.Rule]++
+		}
+	}
+	for _, f := range c.floors {
+		if counts[f.rule] < f.min {
+			c.add(f.rule, "floor", "-", Undecided, fmt.Sprintf("rule matched %d constructs, fewer than the %d confirmed by hand (%s): the rule would pass vacuously", counts[f.rule], f.min, f.why))
+		}
+	}
+}
+
+// Merge folds the result of the same rule run under another build configuration into c: obligations that
+// agree (same rule, construct and status) are counted, the others are added with the configuration in their key.
+func (c *Ctx) Merge(o *Ctx, config string) {
+	c.ApplyFloors()
+	o.ApplyFloors()
+	have := map[string]Status{}
+	for _, x := range c.Obl {
+		have[x.Rule+"\x00"+x.Key] = x.Status
+	}
+	same, diff := 0, 0
+	for _, x := range o.Obl {
+		if st, ok := have[x.Rule+"\x00"+x.Key]; ok && st == x.Status {
+			same++
+			continue
+		}
+		diff++
+		x.Key = x.Key + " [" + config + "]"
+		c.Obl = append(c.Obl, x)
+	}
+	c.Configs = append(c.Configs, map[string]interface{}{"configuration": config, "obligations": len(o.Obl), "identical_to_primary": same, "specific_to_configuration": diff,
+		"functions_in_program": len(o.P.Funcs())})
+}
+
 // Assume records a trusted assumption.
 func (c *Ctx) Assume(s string) { c.Assumptions = append(c.Assumptions, s) }
 
@@ -124,18 +168,7 @@ var sanitize = regexp.MustCompile(`[^A-Za-z0-9_.-]+`)
 
 // Finish prints the report, writes evidence and replay files, returns the exit code.
 func (c *Ctx) Finish(verifDir string, replay string) int {
-	// floors
-	counts := map[string]int{}
-	for _, o := range c.Obl {
-		if o.Status != Observed {
-			counts[o.Rule]++
-		}
-	}
-	for _, f := range c.floors {
-		if counts[f.rule] < f.min {
-			c.add(f.rule, "floor", "-", Undecided, fmt.Sprintf("rule matched %d constructs, fewer than the %d confirmed by hand (%s): the rule would pass vacuously", counts[f.rule], f.min, f.why))
-		}
-	}
+	c.ApplyFloors()
 	var kf KnownFindings
 	if b, err := os.ReadFile(filepath.Join(verifDir, "known_findings.json")); err == nil {
 		if err := json.Unmarshal(b, &kf); err != nil {
@@ -268,6 +301,9 @@ func (c *Ctx) Finish(verifDir string, replay string) int {
 		"checker_cmd":          "bin/htcheck -p " + c.Prop + " -tier " + c.Tier,
 		"notes":                c.Notes,
 		"all_obligations":      c.Obl,
+	}
+	if len(c.Configs) > 0 {
+		cov["additional_build_configurations"] = c.Configs
 	}
 	for k, v := range c.Extra {
 		cov[k] = v
